@@ -9,6 +9,11 @@
      KGather     a rendered document: the laid-out boxes of every page (pre-order
                  dump with hit areas) against what newPage gathered (hook VerifPages);
                  geometry is compared unless a CSS transform applies (flag)
+     KGatherT    the same document as a TREE (boxes that carry an id / link / bookmark
+                 label or a CSS transform, nesting kept) with the own matrix of every
+                 transformed box (hook VerifMatrix = getMatrix, C17's): link rectangles,
+                 anchor and bookmark positions under the transform stack
+                 (Draw/LinksTree.v, float32 instance, bit for bit)
      KDoc        a rendered document written at some zoom: gathered page data ->
                  resolve -> Write loop (float32 instance, bit for bit) against the
                  calls the recording backend received; outline against makeBookmarkTree
@@ -23,7 +28,7 @@
                  the backend received (names only)
 
    codes: 0 agree; 2 is reserved for "skipped"; see checks/C14.py for the rest. *)
-From Verif Require Export Base.F32 Base.GoSem Geom.Matrix Draw.Links Draw.Bookmarks Draw.Protocol Draw.Emit Draw.Meta Draw.Tiling.
+From Verif Require Export Base.F32 Base.GoSem Geom.Matrix Draw.Links Draw.LinksTree Draw.Bookmarks Draw.Protocol Draw.Emit Draw.Meta Draw.Tiling.
 From Coq Require Import QArith List NArith ZArith Bool.
 Import ListNotations.
 Open Scope N_scope.
@@ -49,6 +54,7 @@ Inductive case :=
 | KResolve (pages : list page) (ol : list (list link)) (oa : list (list anchor))
 | KBookmarks (pages : list (list bookmark)) (out : bres)
 | KGather (geom : bool) (boxes : list (list box)) (vpages : list page)
+| KGatherT (trees : list tbox) (vpages : list page)   (* the box TREE of every page with the own matrix of every transformed box: geometry under the transform stack, float32 bit for bit *)
 | KDoc (zoom : Q) (vpages : list page) (geoms : list geom) (rec : list rpage) (outline : list node)
 | KMeta (els : list melem) (out : meta)
 | KTrace (npages : N) (sep : list N) (t : list call)   (* rules in `sep` are reported by their own KTraceRule case *)
@@ -207,6 +213,12 @@ Definition check (c : case) : N :=
                    (list_eqb (set_eqb aeq) (map g_anchors gs) (map p_anchors vpages), 10);
                    (list_eqb (list_eqb leq) (map g_links gs) (map p_links vpages), 11);
                    (list_eqb (list_eqb beq) (map g_bks gs) (map p_bks vpages), 12) ]
+  | KGatherT trees vpages =>
+      let gs := map (gather_tree f32) trees in
+      first_code [ (Nat.eqb (length gs) (length vpages), 9);
+                   (list_eqb (set_eqb anchor_eqb) (map g_anchors gs) (map p_anchors vpages), 10);
+                   (list_eqb (list_eqb link_eqb) (map g_links gs) (map p_links vpages), 11);
+                   (list_eqb (list_eqb bk_eqb) (map g_bks gs) (map p_bks vpages), 12) ]
   | KDoc zoom vpages geoms rec outline =>
       let m := model_doc zoom vpages geoms in
       first_code [ (Nat.eqb (length vpages) (length geoms), 9);
@@ -259,6 +271,7 @@ Definition model_out (c : case) : mout :=
   | KResolve pages _ _ => let '(ls, ans) := resolve pages in MResolve ls ans
   | KBookmarks pages _ => MBook (model_bookmarks pages)
   | KGather _ boxes _ => MGather (map gather boxes)
+  | KGatherT trees _ => MGather (map (gather_tree f32) trees)
   | KDoc zoom vpages geoms _ _ => MDoc (model_doc zoom vpages geoms) (model_outline vpages)
   | KMeta els _ => MMetaOut (get_metadata els)
   | KTrace _ _ t | KTraceRule _ t => let '(v, st) := monitor t in MViol (final_violations t) (Protocol.npages st)
